@@ -30,6 +30,7 @@ class Outside(Exception):
 
 
 _counter = itertools.count()
+SPEC_MODE = False
 
 
 def fresh_name(base: str) -> str:
